@@ -66,7 +66,11 @@ func (d *DateTime) UnmarshalJSON(bytes []byte) error {
 		if err != nil {
 			// ... numeric zone abbreviations (e.g. +0545 for Asia/Kathmandu) cannot be parsed as 'MST'
 			if len(s) > 20 && s[19] == ' ' {
-				datetime, err = time.ParseInLocation("2006-01-02 15:04:05", s[:19], time.Local)
+				if t, errx := time.Parse("2006-01-02 15:04:05 -0700", s); errx == nil {
+					datetime, err = t.In(time.Local), nil
+				} else {
+					datetime, err = time.ParseInLocation("2006-01-02 15:04:05", s[:19], time.Local)
+				}
 			}
 
 			if err != nil {
